@@ -37,7 +37,7 @@ func main() {
 	case "C09":
 		runProp(cfg, rep, genPostingMode, checkPostingMode, 500, 20000, 2, 4)
 	case "C16":
-		runProp(cfg, rep, genWrites, checkEvents, 300, 5000, 4, 8)
+		runProp(cfg, rep, genWritesForEvents, checkEvents, 300, 5000, 4, 8)
 	case "C06":
 		runC06(cfg, rep)
 	case "C04":
